@@ -128,14 +128,11 @@ func (err *yamlParseError) Error() string {
 	var te *yaml.TypeError
 	if errors.As(err.err, &pe) {
 		index, message = pe.Index, pe.Message
-	} else if errors.As(err.err, &te) {
-		var ue *yaml.UnmarshalError
-		for _, e := range te.Errors {
-			if errors.As(e, &ue) {
-				index, message = ue.Index, ue.Err.Error()
-				break
-			}
-		}
+	} else if errors.As(err.err, &te) && len(te.Errors) > 0 {
+		index, message = te.Errors[0].Index, te.Errors[0].Err.Error()
+	} else { // the error has no position
+		return fmt.Sprintf("invalid yaml: %s: %s", err.fname,
+			strings.TrimPrefix(err.err.Error(), "yaml: "))
 	}
 	linestr, line, column := getLineByOffset(err.contents,
 		runeIndexToOffset(err.contents, index)+1)
